@@ -130,6 +130,10 @@ class Interpreter(BaseInterpreter[TContext, TEvent]):
             Union[Event, AfterEvent, DoneEvent]
         ] = asyncio.Queue()
         self._event_loop_task: Optional[asyncio.Task[None]] = None
+        #: True while `start()` is performing the initial entry. The run loop
+        #: is attached only once that has settled, so "running with no loop
+        #: task" is not enough to recognise a snapshot-restored interpreter.
+        self._starting: bool = False
         #: Length of the current self-raised event chain. Incremented when an
         #: action enqueues onto our own queue *during* processing, reset when
         #: a macrostep completes without having done so. Bounds a runaway
@@ -195,6 +199,7 @@ class Interpreter(BaseInterpreter[TContext, TEvent]):
         if (
             self.status in ("running", "done", "error")
             and self._event_loop_task is None
+            and not self._starting
         ):
             logger.info("♻️ Resuming restored interpreter '%s'...", self.id)
             if self.status == "running":
@@ -230,6 +235,12 @@ class Interpreter(BaseInterpreter[TContext, TEvent]):
 
         logger.info("🏁 Starting interpreter '%s'...", self.id)
         self.status = "running"
+        # 🚦 A second `start()` arriving while this one is still entering the
+        #    initial states (it awaits entry actions) must hit the "already
+        #    running" branch above, not the resume branch: that one attached
+        #    a run loop at once - a second one followed below - and events
+        #    were processed in the middle of the initial entry.
+        self._starting = True
 
         try:
             # 🔔 Notify plugins that the interpreter is starting.
@@ -280,6 +291,8 @@ class Interpreter(BaseInterpreter[TContext, TEvent]):
             if self._event_loop_task and not self._event_loop_task.done():
                 self._event_loop_task.cancel()
             raise  # Re-raise the original exception to the caller.
+        finally:
+            self._starting = False
 
         return self
 
